@@ -439,6 +439,9 @@ def check(pid, tier):
         print(f"KNOWN-FINDING: property={pid} {k['what']} [{kid}, {cnt} case(s)]")
     for (p, suffix) in violations:
         print(f"VIOLATION property={pid} replay={p}{suffix}")
+    if not os.environ.get("VERIF_KEEP"):
+        import shutil
+        shutil.rmtree(rundir, ignore_errors=True)   # replays live in work/replay; the case files can be GBs
     print(f"{pid} {tier}: theorems {discharged}/{obligations}, cases {n}, disagreements {len(dis)}, oracle failures {len(ofail) + len(sfail)}, "
           f"known {sum(v[1] for v in known_hits.values())}, {round(time.time() - t0, 1)}s")
     return 1 if violations else 0
